@@ -239,13 +239,17 @@ Theorem c03_srandmember_every_admissible_choice :
   forall n s xs, s <> [] -> incl xs s ->
   (0 <= n -> len xs = Z.min n (len s) -> NoDup xs ->
    e_srandmember (Some n) (Some (FArray (map FBulk xs))) (Some (VSet s)) = (r_bulks (bsort xs), Keep)) /\
-  (n < 0 -> n <> i64_min -> len xs = - n ->
+  (n < 0 -> - n <= 1048576 -> len xs = - n ->
    e_srandmember (Some n) (Some (FArray (map FBulk xs))) (Some (VSet s)) = (r_bulks (bsort xs), Keep)).
 Proof. exact srandmember_every_choice. Qed.
 (** count = i64::MIN (whose negation does not exist) is refused, as Redis does *)
 Theorem c03_srandmember_min_refused :
   forall oracle s, s <> [] -> e_srandmember (Some i64_min) oracle (Some (VSet s)) = (r_err, Keep).
 Proof. exact srandmember_min_refused. Qed.
+(** more than 2^20 draws are refused (9dd4676): the work is bounded whatever the count *)
+Theorem c03_srandmember_cap_refused :
+  forall n oracle s, s <> [] -> n < - 1048576 -> e_srandmember (Some n) oracle (Some (VSet s)) = (r_err, Keep).
+Proof. exact srandmember_cap_refused. Qed.
 Example c03_srandmember_min_fixed_history :
   replies [["SADD"; "s"; "a"]; ["SRANDMEMBER"; "s"; "-9223372036854775808"]; ["SCARD"; "s"]]%string
   = [FInt 1; r_err; FInt 1].
